@@ -328,7 +328,7 @@ def instances(tier, seed):
                     continue
                 if q and BOX_POOL.index((lo, hi)) == 6 and mode not in ('tight', 'tight=False'):
                     continue
-                for cons in ((None,) if q else (None, 'pure')):
+                for cons in ((None,) if (q or len(lo) > 1) else (None, 'pure')):      # (2-D boxes with extra constraints: >150k paths each)
                     out.append(Instance('mode-step/%s/%s/box%d/%s' % (kind, mode, BOX_POOL.index((lo, hi)), cons or 'nocons'),
                                         mode_step(kind, mode, lo, hi, cons)))
     return out
